@@ -829,7 +829,144 @@ end Jwt.Ll
     return "LlOps.lean", text, {"functions": info, "macros_checked": sorted(mac)}
 
 
-GENERATORS = [gen_base64, gen_alg, gen_common, gen_jwk, gen_ops, gen_cli, gen_conc, gen_ecframe, gen_ll]
+def c_bits_to_lean(expr, ren):
+    """a C expression over bytes built from >> << & | , hex/decimal literals, parentheses and the variables in `ren`"""
+    e = expr.strip()
+    if re.search(r"[+\-*/%^~!?:]", e):
+        raise ExtractError("base64.c: expression %r outside the translatable fragment" % expr)
+    toks = re.findall(r"0[xX][0-9a-fA-F]+|\d+|>>|<<|[&|()]|\w+", e)
+    if "".join(toks) != re.sub(r"\s+", "", e):
+        raise ExtractError("base64.c: cannot tokenise %r" % expr)
+    out = []
+    for t in toks:
+        if t in (">>", "<<"):
+            out.append(" " + t + t[0] + " ")
+        elif t == "&":
+            out.append(" &&& ")
+        elif t == "|":
+            out.append(" ||| ")
+        elif t in "()":
+            out.append(t)
+        elif re.fullmatch(r"0[xX][0-9a-fA-F]+|\d+", t):
+            out.append(t.replace("0X", "0x"))
+        elif t in ren:
+            out.append(ren[t])
+        else:
+            raise ExtractError("base64.c: unknown identifier %r in %r" % (t, expr))
+    return "".join(out)
+
+
+def gen_base64code(repo, build):
+    """base64.c: the arms of the three `switch` statements, translated expression by expression"""
+    src = open(os.path.join(repo, "libjwt/base64.c")).read()
+    src = re.sub(r"/\*.*?\*/", " ", src, flags=re.S)
+    src = re.sub(r"//[^\n]*", " ", src)
+    enc = func_body(src, r"\bbase64_encode\s*\([^)]*\)\s*\{")
+    dec = func_body(src, r"\bbase64_decode\s*\([^)]*\)\s*\{")
+    flat = lambda t: re.sub(r"\s+", "", t)
+    # the skeleton the hand-written loops assume
+    for need, where, what in (("for(i=j=0;i<inlen;i++){c=in[i];switch(s){", enc, "encode loop head"), ("}l=c;}switch(s){", enc, "encode: l = c, trailing switch"),
+                              ("}out[j]=0;returnj;}", enc, "encode: terminator and return"), ("s=0;l=0;", enc, "encode: initial state"),
+                              ("if(inlen&0x3){return0;}", dec, "decode: length test"), ("for(i=j=0;i<inlen;i++){if(in[i]==BASE64_PAD){break;}", dec, "decode: loop head and pad break"),
+                              ("if(in[i]<BASE64DE_FIRST||in[i]>BASE64DE_LAST){return0;}", dec, "decode: range test"),
+                              ("c=base64de[(unsignedchar)in[i]];if(c==255){return0;}switch(i&0x3){", dec, "decode: table lookup"), ("}}returnj;}", dec, "decode: return")):
+        if need not in flat(where):
+            raise ExtractError("base64.c: %s no longer has the shape the hand-written loop models assume" % what)
+    sw = [m.start() for m in re.finditer(r"switch\s*\(\s*s\s*\)", enc)]
+    if len(sw) != 2:
+        raise ExtractError("base64_encode: expected two switch (s) statements")
+    loop_sw, tail_sw = enc[sw[0]:sw[1]], enc[sw[1]:]
+
+    def cases(text):
+        out = []
+        for m in re.finditer(r"case\s+(\d+)\s*:(.*?)break\s*;", text, flags=re.S):
+            out.append((int(m.group(1)), [st.strip() for st in m.group(2).split(";") if st.strip()]))
+        return out
+    step = []
+    for k, sts in cases(loop_sw):
+        ns, outs = None, []
+        for st in sts:
+            m1 = re.fullmatch(r"s\s*=\s*(\d+)", st)
+            m2 = re.fullmatch(r"out\s*\[\s*j\+\+\s*\]\s*=\s*base64en\s*\[(.*)\]", st, flags=re.S)
+            if m1:
+                ns = int(m1.group(1))
+            elif m2:
+                outs.append("enAt (%s)" % c_bits_to_lean(m2.group(1), {"c": "c", "l": "l"}))
+            else:
+                raise ExtractError("base64_encode loop: statement %r outside the translatable fragment" % st)
+        if ns is None or not outs:
+            raise ExtractError("base64_encode loop: case %d incomplete" % k)
+        step.append((k, ns, outs))
+    if [k for k, _, _ in step] != [0, 1, 2]:
+        raise ExtractError("base64_encode loop: cases are %r" % [k for k, _, _ in step])
+    tail = []
+    for k, sts in cases(tail_sw):
+        outs = []
+        for st in sts:
+            m2 = re.fullmatch(r"out\s*\[\s*j\+\+\s*\]\s*=\s*base64en\s*\[(.*)\]", st, flags=re.S)
+            m3 = re.fullmatch(r"out\s*\[\s*j\+\+\s*\]\s*=\s*BASE64_PAD", st)
+            if m2:
+                outs.append("enAt (%s)" % c_bits_to_lean(m2.group(1), {"l": "l"}))
+            elif m3:
+                outs.append("pad")
+            else:
+                raise ExtractError("base64_encode tail: statement %r outside the translatable fragment" % st)
+        tail.append((k, outs))
+    dsw = dec[dec.index("switch"):]
+    darms = []
+    for k, sts in cases(dsw):
+        lines, jo, buf = [], 0, "out"
+        for st in sts:
+            m1 = re.fullmatch(r"out\s*\[\s*j\s*\]\s*=\s*(.*)", st, flags=re.S)
+            m2 = re.fullmatch(r"out\s*\[\s*j\+\+\s*\]\s*\|=\s*(.*)", st, flags=re.S)
+            idx = "j" if jo == 0 else "(j + %d)" % jo
+            if m1:
+                lines.append("    let o ← bufSet %s %s (%s)" % (buf, idx, c_bits_to_lean(m1.group(1), {"c": "v"})))
+                buf = "o"
+            elif m2:
+                lines.append("    let x ← %s[%s]?" % (buf, idx.strip("()")))
+                lines.append("    let o ← bufSet %s %s (x ||| (%s))" % (buf, idx, c_bits_to_lean(m2.group(1), {"c": "v"})))
+                buf = "o"
+                jo += 1
+            else:
+                raise ExtractError("base64_decode: statement %r outside the translatable fragment" % st)
+        lines.append("    pure (%s, o)" % ("j" if jo == 0 else "j + %d" % jo))
+        darms.append((k, lines))
+    if [k for k, _ in darms] != [0, 1, 2, 3]:
+        raise ExtractError("base64_decode: switch cases are %r" % [k for k, _ in darms])
+    pat = lambda k, last: "_" if last else str(k)
+    text = f"""/- GENERATED by tie/extract.py from libjwt/base64.c -- do not edit.
+   The arms of the three `switch` statements, translated expression by expression (`>>`, `<<`, `&`, `|` on bytes;
+   `out[j++] = base64en[E]` appends `enAt E`; `out[j] = E` / `out[j++] |= E` are checked stores into the buffer).
+   The loops around them are written by hand in Jwt/Base64.lean; the extractor checks that the C loops still have
+   the shape those assume. Regenerated from /repo on every check run; all C11 theorems are about these definitions. -/
+import Jwt.Base64Prelude
+namespace Jwt.Base64
+open Jwt Jwt.Generated
+
+/-- one iteration of the `for` loop of `base64_encode`: state `s`, previous byte `l`, current byte `c`;
+returns the next state and the bytes appended to `out` -/
+def encStep (s : Nat) (l c : UInt8) : Nat × Bytes :=
+  match s with
+{chr(10).join("  | %s => (%d, [%s])" % (pat(k, i == len(step) - 1), ns, ", ".join(outs)) for i, (k, ns, outs) in enumerate(step))}
+
+/-- the trailing `switch (s)` of `base64_encode` -/
+def encTail (s : Nat) (l : UInt8) : Bytes :=
+  match s with
+{chr(10).join("  | %d => [%s]" % (k, ", ".join(outs)) for k, outs in tail)}
+  | _ => []
+
+/-- the body of `switch (i & 0x3)` of `base64_decode` for table value `v`; `none` = out of bounds -/
+def decStep (i j : Nat) (out : Bytes) (v : UInt8) : Option (Nat × Bytes) :=
+  match i &&& 0x3 with
+{chr(10).join("  | %s => do%s%s" % (pat(k, i == len(darms) - 1), chr(10), chr(10).join(lines)) for i, (k, lines) in enumerate(darms))}
+
+end Jwt.Base64
+"""
+    return "Base64Code.lean", text, {"encode_step": step, "encode_tail": tail, "decode_arms": [(k, len(l)) for k, l in darms]}
+
+
+GENERATORS = [gen_base64, gen_alg, gen_common, gen_jwk, gen_ops, gen_cli, gen_conc, gen_ecframe, gen_ll, gen_base64code]
 
 
 def main():
